@@ -114,6 +114,18 @@ CHECKS["C17"] = dict(
     design="5/C17",
 )
 
+CHECKS["C20"] = dict(
+    text="Proved for every sequence of heading levels >= 1 and every outline level: the dict-based numbering of TOC._header_numbering refines the outline "
+    "counters (keys stay exactly 1..L, all deeper counters dropped), so the entries of a fill are exactly the headings with level <= outline, in order, each "
+    "with its hierarchical number (fill_is_outline, entries_are_filtered_headings); the copy in scripts/headers.py is the same function. Correspondence and "
+    "oracle: real documents (skipped levels, white-space / span heading texts, TOC anywhere, outline 0..10), XML of text:index-body vs an independent "
+    "numbering, title kept, refill idempotent (same and fresh wrapper), refill after heading edits, odfdo-headers output.",
+    note="Entry text = number + ' ' + heading text goes through the paragraph encoder whose exactness is C05. Level 0 / missing outline-level headings are "
+    "outside the statement (levels 1..10). lxml and the document plumbing (body.headers, get_toc) are exercised by the oracle only.",
+    technique="Lean 4 refinement proof of the counter dict to a list spec (induction over the heading sequence) + differential correspondence",
+    design="5/C20",
+)
+
 NOT_YET = {}
 
 
